@@ -1181,10 +1181,10 @@ func runC03(c *core.Ctx) error {
 	// (R): seeded random bit patterns by simulation. Both TLC runs feed the same workers.
 	err := r.consume(6, []core.TLCOpts{
 		{Spec: "Conv", CfgName: "cells-bfs-" + tier,
-			Cfg: c03Cfg(tier, true, true, 0, "none", "none", true, c03Invs), Workers: 6, Timeout: 14 * time.Minute},
+			Cfg: c03Cfg(tier, true, true, 0, "none", "none", true, c03Invs), Workers: 6, Timeout: 40 * time.Minute},
 		{Spec: "Conv", CfgName: "cells-sim-" + tier,
 			Cfg:      c03Cfg(tier, false, false, 8, "none", "none", true, "WellFormed RoundTrips ConstLaws Emit"),
-			Simulate: true, SimNum: c.Pick(500, 12000), SimDepth: 3, Seed: c.Seed, Workers: 2, Timeout: 14 * time.Minute},
+			Simulate: true, SimNum: c.Pick(500, 12000), SimDepth: 3, Seed: c.Seed, Workers: 2, Timeout: 40 * time.Minute},
 	})
 	if err != nil {
 		return err
